@@ -47,6 +47,46 @@ struct Scn {
     parts: u64,
     /// explicit inputs (hex) for replay of a narrowed failure; target names the entry point
     explicit: Option<(String, Vec<String>)>,
+    /// failing system call: while the decoders run, every write to the process' standard error
+    /// fails (fd 2 points at /dev/full, as with a full log disk or a closed pipe). A decoder
+    /// that logs with eprintln! then panics on a valid packet.
+    #[serde(default)]
+    stderr_unwritable: bool,
+}
+
+/// Points fd 2 at /dev/full for its lifetime.
+struct StderrFull {
+    saved: i32,
+}
+extern "C" {
+    fn dup(fd: i32) -> i32;
+    fn dup2(from: i32, to: i32) -> i32;
+    fn close(fd: i32) -> i32;
+}
+impl StderrFull {
+    fn engage() -> Option<StderrFull> {
+        use std::os::fd::IntoRawFd;
+        let full = std::fs::OpenOptions::new().write(true).open("/dev/full").ok()?.into_raw_fd();
+        // SAFETY: plain descriptor juggling on descriptors this function owns or restores
+        unsafe {
+            let saved = dup(2);
+            if saved < 0 || dup2(full, 2) < 0 {
+                close(full);
+                return None;
+            }
+            close(full);
+            Some(StderrFull { saved })
+        }
+    }
+}
+impl Drop for StderrFull {
+    fn drop(&mut self) {
+        // SAFETY: restores the descriptor saved in `engage`
+        unsafe {
+            dup2(self.saved, 2);
+            close(self.saved);
+        }
+    }
 }
 
 fn hex(b: &[u8]) -> String {
@@ -521,13 +561,21 @@ impl Check for C01Check {
                 1,
             )
         };
-        serde_json::to_value(Scn { mode: mode.into(), family, seed: pair_seed, part, parts, explicit: None }).unwrap()
+        // every second pair runs with an unwritable standard error
+        serde_json::to_value(Scn { mode: mode.into(), family, seed: pair_seed, part, parts, explicit: None, stderr_unwritable: i % 2 == 1 }).unwrap()
     }
 
     fn run(&self, scenario: &Value, stats: &mut Stats) -> Outcome {
         // the decoders run on a thread with the stack an ordinary caller has (2 MiB, std's default
         // for spawned threads), not on the worker's 512 MiB stack: recursion whose depth the sender
         // controls must overflow here as it would there (process abort -> no-abort)
+        let _stderr = if scenario["stderr_unwritable"].as_bool().unwrap_or(false) {
+            let g = StderrFull::engage();
+            stats.fault(if g.is_some() { "stderr_writes_fail_enospc" } else { "stderr_fault_unavailable_no_dev_full" });
+            g
+        } else {
+            None
+        };
         simcore::driver::run_on_stack(2 << 20, "C01", || run_on_caller_stack(scenario, stats))
     }
 
